@@ -93,9 +93,89 @@ def leak_snapshot():
                     kids.append({'pid': int(p), 'state': state, 'cmd': cmd[:120]})
             except (OSError, IndexError, ValueError):
                 pass
-    return {'children': kids, 'threads': sorted(t.name for t in threading.enumerate()),
+    try:
+        from tqdm import tqdm as _tq
+        tl = id(getattr(_tq, '_lock', None)) if getattr(_tq, '_lock', None) is not None else None
+    except ImportError:
+        tl = None
+    return {'children': kids, 'threads': sorted(t.name for t in threading.enumerate()), 'tqdm_lock': tl,
             'n_fds': len(os.listdir('/proc/self/fd')),
             'sigint': repr(signal.getsignal(signal.SIGINT))}
+
+
+class LineInjector:
+    """Delivers SIGINT to this process at a chosen point of the MAIN thread's execution of the library, or records
+    which points exist ('record').  Only points at which CPython (3.12) can really run a signal handler are used:
+      call|file:func:firstline   entry of a Python function (the RESUME check)
+      cret|file:line:name        right after a C function called from that line returned (the check after a call)
+    (an exception raised by a settrace LINE callback is not a faithful stand-in: it can bypass the frame's own
+    try blocks; backward-jump check points are therefore only covered by the wall-clock deliveries)
+    A handler never runs in the middle of other instructions, so e.g. the exit of a `with lock:` block is atomic."""
+
+    def __init__(self, spec):
+        self.spec = spec
+        self.hits = {}
+        self._loops = {}
+        self.fired = False
+        self.suffixes = tuple('mpire/' + f for f in spec.get('files', ['pool.py', 'comms.py', 'async_result.py', 'signal.py',
+                                                                      'progress_bar.py', 'tqdm_utils.py']))
+        self.main = threading.main_thread()
+
+    def _rel(self, code):
+        fn = code.co_filename
+        return fn[fn.rfind('mpire/') + 6:]
+
+    def _point(self, key):
+        self.hits[key] = self.hits.get(key, 0) + 1
+        sp = self.spec
+        if sp.get('mode') == 'line' and not self.fired and key == sp['at'] and self.hits[key] == sp.get('hit', 1):
+            self.fired = True
+            if sp.get('group'):
+                os.killpg(os.getpgid(0), signal.SIGINT)
+            else:
+                os.kill(os.getpid(), signal.SIGINT)
+
+    def _loop_lines(self, code):
+        ll = self._loops.get(code)
+        if ll is None:
+            import dis
+            ins = list(dis.get_instructions(code))
+            line_of, line = {}, None
+            for i in ins:
+                if i.starts_line is not None:
+                    line = i.starts_line
+                line_of[i.offset] = line
+            ll = {line_of.get(i.argval) for i in ins if i.opname == 'JUMP_BACKWARD'}
+            self._loops[code] = ll
+        return ll
+
+    def _profile(self, frame, event, arg):
+        if threading.current_thread() is not self.main:
+            return
+        code = frame.f_code
+        if not code.co_filename.endswith(self.suffixes):
+            return
+        if event == 'call':
+            self._point(f"call|{self._rel(code)}:{code.co_name}:{code.co_firstlineno}")
+        elif event == 'c_return':
+            self._point(f"cret|{self._rel(code)}:{frame.f_lineno}:{getattr(arg, '__name__', '?')}")
+
+    def _local(self, frame, event, arg):
+        if event == 'line' and frame.f_lineno in self._loop_lines(frame.f_code):
+            self._point(f"loop|{self._rel(frame.f_code)}:{frame.f_lineno}")
+        return self._local
+
+    def _global(self, frame, event, arg):
+        if frame.f_code.co_filename.endswith(self.suffixes):
+            return self._local
+        return None
+
+    def __enter__(self):
+        sys.setprofile(self._profile)
+        return self
+
+    def __exit__(self, *a):
+        sys.setprofile(None)
 
 
 def layout_bits(pool):
@@ -123,7 +203,21 @@ def run_call(pool, call, res):
     out = {'kind': kind}
     partial = []
     t0 = time.time()
+    inj = None
+    sig = call.get('sigint')
     try:
+        if sig and sig.get('mode') in ('line', 'record'):
+            inj = LineInjector(sig)
+            inj.__enter__()
+        elif sig and sig.get('mode') == 'time':
+            def later():
+                time.sleep(sig['delay'])
+                out['sigint_sent_at'] = time.time() - t0
+                if sig.get('group'):
+                    os.killpg(os.getpgid(0), signal.SIGINT)
+                else:
+                    os.kill(os.getpid(), signal.SIGINT)
+            threading.Thread(target=later, daemon=True).start()
         if kind in ('map', 'map_unordered', 'imap', 'imap_unordered'):
             data = build_input(call)
             if call.get('nested_misuse'):
@@ -246,11 +340,20 @@ def run_call(pool, call, res):
             raise ValueError('unknown call kind ' + kind)
         out['outcome'] = 'ok'
     except BaseException as e:      # noqa: the outcome of the call IS the datum
+        if inj is not None:
+            inj.__exit__()
+        if sig:
+            out['at_raise'] = leak_snapshot()          # what is still alive at the moment the exception reaches the caller
         out['outcome'] = 'exc'
         out['exc'] = canon_exc(e)
         out['partial'] = [v if (isinstance(v, list) and v and v[0] in ('R', 'Q')) else userfuncs.canon(v) for v in partial]
         out['tb'] = traceback.format_exc()[-3000:]
     out['wall'] = time.time() - t0
+    if inj is not None:
+        inj.__exit__()
+        out['fired'] = inj.fired
+        if sig.get('mode') == 'record':
+            out['lines'] = inj.hits
     if call.get('want_exit_results'):
         try:
             out['exit_results'] = [userfuncs.canon(v)[1][:3] if isinstance(v, list) else repr(v) for v in pool.get_exit_results()]
